@@ -272,7 +272,13 @@ class C04(Prop):
                         break
                 STATS['copy'] = STATS['parse'] = 0
                 try:
-                    m = g.parse(text, diff_cache=True, path=path)
+                    if debug:
+                        import contextlib
+                        import io
+                        with contextlib.redirect_stdout(io.StringIO()):     # the debug mode prints its report
+                            m = g.parse(text, diff_cache=True, path=path)
+                    else:
+                        m = g.parse(text, diff_cache=True, path=path)
                 except RecursionError:
                     raise
                 except Exception as e:
